@@ -298,11 +298,27 @@ class C11(Check):
             else:
                 self.violated("K4", MOD, rep.name, f"translated-{kind}", lp[0] if lp else rep, f"{kind} are not all carried into the symbolic representation",
                               witness=f"the rebuilt model lacks some {kind}")
-            el = [l for l in strip_docstring(gen.body) if isinstance(l, ast.For) and norm(l.iter) == f"model.{kind}.items()"]
-            srcname = {"variables": "variable_source", "parameters": "parameter_source", "derived": "derived_source", "reactions": "reactions_source"}[kind]
-            appended = any(isinstance(s, ast.If) and norm(s.test) == f"len({srcname}) > 0" and f"source.append('\\n'.join({srcname}))" in norm(s) for s in strip_docstring(gen.body))
-            emits = el and any(isinstance(c, ast.Call) and norm(c.func) == f"{srcname}.append" for c in ast.walk(el[0])) and \
-                not any(isinstance(x, (ast.Continue, ast.Break)) for x in ast.walk(el[0]))
+            gbody = strip_docstring(gen.body)
+            el = [l for l in gbody if isinstance(l, ast.For) and norm(l.iter) == f"model.{kind}.items()"]
+            comps = [(s_.targets[0].id, s_) for s_ in gbody if isinstance(s_, ast.Assign) and isinstance(s_.targets[0], ast.Name) and isinstance(s_.value, ast.ListComp)
+                     and len(s_.value.generators) == 1 and norm(s_.value.generators[0].iter) == f"model.{kind}.items()"]
+            srcname = None
+            emits = False
+            if comps:
+                srcname, node_ = comps[0]
+                emits = not node_.value.generators[0].ifs
+                el = [node_]
+            elif el:
+                apps = [norm(c.func.value) for c in ast.walk(el[0]) if isinstance(c, ast.Call) and isinstance(c.func, ast.Attribute) and c.func.attr == "append" and isinstance(c.func.value, ast.Name)]
+                # the list that collects one entry per component: appended to at the top level of the loop body
+                top = [norm(s_.value.func.value) for s_ in el[0].body if isinstance(s_, ast.Expr) and isinstance(s_.value, ast.Call) and isinstance(s_.value.func, ast.Attribute)
+                       and s_.value.func.attr == "append"]
+                srcname = top[-1] if top else (apps[-1] if apps else None)
+                emits = bool(top) and not any(isinstance(x, (ast.Continue, ast.Break)) for x in ast.walk(el[0])) and \
+                    not any(isinstance(x, ast.If) and any(isinstance(y, ast.Call) and norm(y.func) == f"{srcname}.append" for y in ast.walk(x)) for x in el[0].body)
+            appended = srcname is not None and any(
+                (isinstance(s_, ast.If) and norm(s_.test) in (f"len({srcname}) > 0", srcname, f"len({srcname}) != 0") and f"source.append('\\n'.join({srcname}))" in norm(s_))
+                or (isinstance(s_, ast.Expr) and norm(s_.value) in (f"source.extend({srcname})", f"source.append('\\n'.join({srcname}))")) for s_ in gbody)
             if emits and appended:
                 self.holds("K4", MOD, GEN, f"emitted-{kind}", el[0], f"one builder call per entry of model.{kind}, joined into the source")
             else:
